@@ -1225,6 +1225,7 @@ static Json gen_inflate(Rng &r0, const std::string &focus, int tier)
         }
         p.set("damage", dm);
         p.set("hugedelta", (int) rio.below(12));
+        bool use_giant = rio.chance(1, 25); // one session in twenty-five: from one of its calls on, avail_in is close to 2^32 (flag 512 on one operation)
         // ---- call history
         int im = (int) rio.below(6), om = (int) rio.below(6);
         uint32_t big = (uint32_t) std::max<uint64_t>((uint64_t) src.at("data").geti("n"), 64);
@@ -1234,7 +1235,7 @@ static Json gen_inflate(Rng &r0, const std::string &focus, int tier)
         for (uint32_t i = 0; i < nops; i++) {
                 uint32_t feed = gen_chunk(rio, rio.chance(1, 4) ? (int) rio.below(6) : im, big);
                 uint32_t out = gen_chunk(rio, rio.chance(1, 4) ? (int) rio.below(6) : om, big + 64);
-                int flags = (discipline & 1 ? 1 : 0) | (discipline & 2 ? 2 : 0) | (rio.chance(1, 10) ? 4 : 0) | (rio.chance(1, 4) ? 16 : 0) | (rio.chance(1, 4) ? 32 : 0) | (rio.chance(1, 12) ? 64 : 0) | (rio.chance(1, 12) ? 128 : 0) | (rio.chance(1, focus == "C17" ? 3 : 12) ? 256 : 0) | (rio.chance(1, 40) ? 512 : 0);
+                int flags = (discipline & 1 ? 1 : 0) | (discipline & 2 ? 2 : 0) | (rio.chance(1, 10) ? 4 : 0) | (rio.chance(1, 4) ? 16 : 0) | (rio.chance(1, 4) ? 32 : 0) | (rio.chance(1, 12) ? 64 : 0) | (rio.chance(1, 12) ? 128 : 0) | (rio.chance(1, focus == "C17" ? 3 : 12) ? 256 : 0);
                 Json o = Json::arr();
                 o.push(feed).push(out).push(flags);
                 ops.push(o);
@@ -1248,6 +1249,12 @@ static Json gen_inflate(Rng &r0, const std::string &focus, int tier)
                 bool whole = rio.chance(1, 3); // all the input at once, the sink ending just before the end of the data
                 o.push(whole ? big * 2 + 4096 : k).push(o1).push(whole ? 64 : rio.chance(1, 4) ? 64 : 0);
                 ops.push(o);
+        }
+        if (use_giant) {
+                Json o = Json::arr();
+                o.push(0).push(gen_chunk(rio, om, big + 64)).push(512);
+                size_t at = ops.a.empty() ? 0 : (size_t) rio.below(ops.a.size() + 1);
+                ops.a.insert(ops.a.begin() + at, o);
         }
         p.set("ops", ops);
         Json tl = Json::arr();
